@@ -98,3 +98,11 @@ var bgCtx = context.Background()
 func (r *RNG) Pick2(vals ...int) int { return vals[r.Intn(len(vals))] }
 
 func asHTTP(err error, target **internal.HTTPError) bool { return errors.As(err, target) }
+
+func unhxString(h string) (string, error) {
+	if h == "-" {
+		return "", nil
+	}
+	b, err := hex.DecodeString(h)
+	return string(b), err
+}
